@@ -884,13 +884,13 @@ impl<'a, 'b> TryInto<AnnotationBuilder<'a>> for AnnotationCsv<'a> {
                         "",
                     ));
                 }
-                if self.targetkey.unwrap_or(Cow::Borrowed("")).find(";").is_some() {
+                if self.targetkey.as_deref().unwrap_or("").find(";").is_some() {
                     return Err(StamError::CsvError(
                         format!("Multiple target keys were specified, but without a complex selector"),
                         "",
                     ));
                 }
-                if self.targetdata.unwrap_or(Cow::Borrowed("")).find(";").is_some() {
+                if self.targetdata.as_deref().unwrap_or("").find(";").is_some() {
                     return Err(StamError::CsvError(
                         format!("Multiple target data were specified, but without a complex selector"),
                         "",
@@ -929,7 +929,40 @@ impl<'a, 'b> TryInto<AnnotationBuilder<'a>> for AnnotationCsv<'a> {
                         let dataset = self.targetdataset;
                         SelectorBuilder::DataSetSelector(BuildItem::Id(dataset.to_string()))
                     }
-                    _ => unreachable!(),
+                    SelectorKind::DataKeySelector => {
+                        let dataset = self.targetdataset;
+                        let datakey = self.targetkey.unwrap_or(Cow::Borrowed(""));
+                        if datakey.is_empty() {
+                            return Err(StamError::CsvError(
+                                format!("No key specified in the TargetKey column"),
+                                "DataKeySelector",
+                            ));
+                        }
+                        SelectorBuilder::DataKeySelector(
+                            BuildItem::Id(dataset.to_string()),
+                            BuildItem::Id(datakey.to_string()),
+                        )
+                    }
+                    SelectorKind::AnnotationDataSelector => {
+                        let dataset = self.targetdataset;
+                        let data = self.targetdata.unwrap_or(Cow::Borrowed(""));
+                        if data.is_empty() {
+                            return Err(StamError::CsvError(
+                                format!("No data specified in the TargetData column"),
+                                "AnnotationDataSelector",
+                            ));
+                        }
+                        SelectorBuilder::AnnotationDataSelector(
+                            BuildItem::Id(dataset.to_string()),
+                            BuildItem::Id(data.to_string()),
+                        )
+                    }
+                    _ => {
+                        return Err(StamError::CsvError(
+                            format!("Unexpected selector type for a simple selector"),
+                            "",
+                        ))
+                    }
                 }
             } else {
                 let targetresources: SmallVec<[&str; 1]> = self.targetresource.split(";").collect();
@@ -1014,7 +1047,7 @@ impl<'a, 'b> TryInto<AnnotationBuilder<'a>> for AnnotationCsv<'a> {
                                 ));
                             }
                             let offset: Option<Offset> = if beginoffsets.get(i).is_some() && !beginoffsets.get(i).unwrap().is_empty() {
-                                if endoffsets.get(i).is_none() && !endoffsets.get(i).unwrap().is_empty() {
+                                if endoffsets.get(i).is_none() || endoffsets.get(i).unwrap().is_empty() {
                                     return Err(StamError::CsvError(
                                     format!(
                                         "No end offset specified for subselector #{}", i
@@ -1059,7 +1092,12 @@ impl<'a, 'b> TryInto<AnnotationBuilder<'a>> for AnnotationCsv<'a> {
                         }
                         SelectorKind::DataKeySelector  => {
                             let dataset = targetdatasets.get(i).unwrap_or(targetdatasets.last().unwrap());
-                            let datakey = targetkeys.get(i).unwrap_or(targetkeys.last().unwrap());
+                            let datakey = targetkeys.get(i).or(targetkeys.last()).ok_or_else(|| StamError::CsvError(
+                                format!(
+                                    "No key specified for subselector #{}", i
+                                ),
+                                "DataKeySelector",
+                            ))?;
                             if dataset.is_empty() {
                                 return Err(StamError::CsvError(
                                 format!(
@@ -1072,7 +1110,12 @@ impl<'a, 'b> TryInto<AnnotationBuilder<'a>> for AnnotationCsv<'a> {
                         }
                         SelectorKind::AnnotationDataSelector  => {
                             let dataset = targetdatasets.get(i).unwrap_or(targetdatasets.last().unwrap());
-                            let data = targetdata.get(i).unwrap_or(targetdata.last().unwrap());
+                            let data = targetdata.get(i).or(targetdata.last()).ok_or_else(|| StamError::CsvError(
+                                format!(
+                                    "No data specified for subselector #{}", i
+                                ),
+                                "AnnotationDataSelector",
+                            ))?;
                             if dataset.is_empty() {
                                 return Err(StamError::CsvError(
                                 format!(
